@@ -79,8 +79,50 @@ def h_plant(flags, nm, nd=None):
         part.bounds = {'filters': nf, 'models': nm, 'distances': nd, 'flags': ''.join(map(str, flags)), 'planted': 'every model index, any A_V0 in [lo,hi], any scale / every grid distance'}
         part.assumptions |= {"log10 / 10** uninterpreted inverses (log10 10**t = t)", "Models.fit called directly (Fitter wiring decided in C01)"}
         fx = fitfix.Fit()
-        ex = C.Explorer(query_timeout_ms=60000)
+        ex = C.Explorer(query_timeout_ms=60000, nonneg_facts=True)
         cl = R.Claims(part, ex, ID)
+        st = {}
+        inner_lr, inner_os = fx.fr.linear_regression, fx.fr.optimal_scaling
+
+        def lemma(goals, label, pinned=()):
+            c = C.ctx()
+            if cl.claim(c, conj(goals), label, st.get('inputs'), replay_plant, timeout_ms=120000):
+                c.pre.append(conj(goals))
+                c.supersede(*pinned)
+
+        def lr(*a):
+            # lemma chaining: the unconstrained regression of the planted model returns exactly the planted values;
+            # proved here (one query), then assumed, so that the clamping forks of that model are decided
+            r = inner_lr(*a)
+            if st.get('plant') is not None:
+                m, A0, s0sh = st['plant']
+                av_ = symnp._obj(su.value_of(r[0])).reshape(-1)
+                sc_ = symnp._obj(su.value_of(r[1])).reshape(-1)
+                lemma([C.same(av_[m], A0), C.same(sc_[m], s0sh)], 'R1 lemma: the regression of the planted model returns the planted A_V and scale',
+                      pinned=(av_[m], sc_[m]))
+            return r
+
+        def os_(*a):
+            r = inner_os(*a)
+            if st.get('plant3') is not None:
+                m, d0, A0 = st['plant3']
+                u_ = symnp._obj(su.value_of(r))
+                if u_.ndim == 2:
+                    lemma([C.same(u_[m, d0], A0)], 'R1 lemma: the 1-D optimum of the planted model at the planted distance is the planted A_V',
+                          pinned=(u_[m, d0],))
+            return r
+        inner_chi = fx.fr.chi_squared
+
+        def chi_(*a):
+            r = inner_chi(*a)
+            pl = st.get('plant') or st.get('plant3')
+            if pl is not None:
+                ch_ = symnp._obj(su.value_of(r))
+                x = ch_[pl[0]] if ch_.ndim == 1 else ch_[pl[0], pl[1]] if ch_.ndim == 2 else None
+                if x is not None:
+                    lemma([C.same(x, 0.0)], 'R1 lemma: chi2 of the planted model at the planted point is 0', pinned=(x,))
+            return r
+        fx.fr.linear_regression, fx.fr.optimal_scaling, fx.fr.chi_squared = lr, os_, chi_
 
         def make_body(m, d0):
             def body(c):
@@ -102,6 +144,14 @@ def h_plant(flags, nm, nd=None):
                         symnp._plain(E)[j] = rho * f
                 sc.F, sc.E = F, E
                 c.vars = (sc, A0, s0, rho)
+                fitted_flags = [fl for fl in flags if fl in (1, 4)]
+                shift = 0.0 if all(fl == 4 for fl in fitted_flags) else 0.25 * rho * rho / LN10
+                st.clear()
+                st['inputs'] = lambda mm: dict(sc.inputs(mm), m=m, d0=d0, A0=mval(mm, A0), s0=mval(mm, s0), rho=mval(mm, rho))
+                if nd is None:
+                    st['plant'] = (m, A0, s0 + shift)
+                else:
+                    st['plant3'] = (m, d0, A0)
                 return sc.fit(fx)
             return body
 
@@ -124,6 +174,7 @@ def h_plant(flags, nm, nd=None):
                         av, s_, chi = (list(symnp._obj(su.value_of(x))) for x in (info.av, info.sc, info.chi2))
                         fitted_flags = [fl for fl in flags if fl in (1, 4)]
                         shift = 0.0 if all(fl == 4 for fl in fitted_flags) else 0.25 * rho * rho / LN10
+                        where = 'planted model %d%s' % (m, '' if d0 is None else ' at distance %d' % d0)
                         g = [C.same(chi[row], 0.0)]
                         if nd is None:
                             g += [C.same(av[row], A0), C.same(s_[row], s0 + shift)]
@@ -131,10 +182,13 @@ def h_plant(flags, nm, nd=None):
                             # another grid distance may fit exactly too (degenerate by reddening): A_V0 is promised at d0
                             g.append(z3.Implies(C.same(s_[row], sc.logd[d0]), C.same(av[row], A0)))
                             g.append(z3.Or([C.same(s_[row], sc.logd[d]) for d in range(nd)]))
-                        g += [C.bterm(C.real(x) >= 0) for x in chi]
-                        g.append(C.same(chi[0], 0.0))
-                        cl.claim(c, conj(g), 'R1 planted model %d%s: chi2 = 0, A_V = A_V0, scale = planted, all chi2 >= 0, rank 1 has chi2 0'
-                                 % (m, '' if d0 is None else ' at distance %d' % d0), inputs, replay_plant)
+                        # one query per conjunct group: each has a small relevance cone
+                        # (a claim that has been proved is then assumed for the next one: lemma chaining)
+                        for gg, lab in ((conj(g), 'chi2 = 0, A_V = A_V0, scale = planted'),
+                                        (conj([C.bterm(C.real(x) >= 0) for x in chi]), 'every chi2 >= 0'),
+                                        (C.same(chi[0], 0.0), 'rank 1 has chi2 0')):
+                            if cl.claim(c, gg, 'R1 %s: %s' % (where, lab), inputs, replay_plant):
+                                c.pre.append(gg.t if isinstance(gg, C.SymBool) else gg)
                         if part.witnesses < 2:
                             cl.witness(c)
         R.finish_part(part, ex, cov)
@@ -161,7 +215,7 @@ def h_chain(nm, perm_all=True):
         for t in ('linear_regression', 'optimal_scaling', 'chi_squared'):
             pk.L.cut('sedfitter.fitting_routines:' + t, t[:2])
         pk.L.cut('sedfitter.source.source:Source.get_log_fluxes', 'glf')
-        ex = C.Explorer(query_timeout_ms=60000)
+        ex = C.Explorer(query_timeout_ms=60000, nonneg_facts=True)
         cl = R.Claims(part, ex, ID)
         names = ['m_%s' % 'bca'[i] for i in range(nm)]
         wl = [1.0, 2.0, 4.0]
@@ -252,13 +306,15 @@ def h_chain(nm, perm_all=True):
 def configs(tier, seed):
     q = tier == 'quick'
     cfgs = []
-    for flags, nm in ([((4, 4), 2), ((4, 4, 4), 1), ((1, 1), 2), ((4, 9, 4), 1)] if q else
-                      [((4, 4), 2), ((4, 4, 4), 2), ((1, 1), 2), ((4, 9, 4), 1), ((4, 4), 3), ((1, 1, 1), 2), ((4, 9, 4, 0), 2)]):
+    for flags, nm in ([((4, 4), 2), ((4, 4, 4), 2), ((1, 1), 2), ((1, 1, 1), 2), ((4, 9, 4), 1), ((4, 4), 3)] if q else
+                      [((4, 4), 2), ((4, 4, 4), 2), ((1, 1), 2), ((4, 9, 4), 1), ((4, 4), 3), ((1, 1, 1), 2), ((4, 9, 4, 0), 2),
+                       ((4, 4, 4, 4), 2), ((4, 4, 4), 3), ((1, 1, 1, 1), 2), ((1, 1), 3), ((4, 4), 4)]):
         if 1 in flags and 4 in flags:
             continue
         cfgs.append(Config('plant 2-D nm=%d flags=%s' % (nm, ''.join(map(str, flags))), h_plant(flags, nm), 3000))
     # distance mode: flag-4 points only (the flag-1 transform shifts log fluxes by -0.5 rho^2/ln10, which only a free scale can absorb)
-    for flags, nm, nd in ([((4, 4), 1, 2), ((4, 9, 4), 1, 2)] if q else [((4, 4), 1, 2), ((4, 9, 4), 1, 2), ((4, 4, 4), 1, 3), ((4, 0, 4), 1, 3)]):
+    for flags, nm, nd in ([((4, 4), 1, 2), ((4, 9, 4), 1, 2), ((4, 4, 4), 1, 3)] if q else
+                          [((4, 4), 1, 2), ((4, 9, 4), 1, 2), ((4, 4, 4), 1, 3), ((4, 0, 4), 1, 3), ((4, 4), 2, 2), ((4, 4, 4), 2, 2), ((4, 4), 1, 4), ((4, 4, 4, 4), 1, 3)]):
         cfgs.append(Config('plant 3-D nm=%d nd=%d flags=%s' % (nm, nd, ''.join(map(str, flags))), h_plant(flags, nm, nd), 3000))
     cfgs.append(Config('chain cube->read->fit()->file->write_parameters nm=2', h_chain(2), 3000))
     if not q:
